@@ -1276,7 +1276,7 @@ class RebaseInheritingObject(
         removed_bases = {b.name for b in self.removed_bases}
         existing_bases = set()
 
-        for b in bases:
+        for b in list(bases):
             if b.get_name(schema) in removed_bases:
                 bases.remove(b)
             else:
